@@ -434,6 +434,12 @@ type propMeta struct {
 }
 
 func (c *Ctx) finish(meta propMeta) int {
+	if meta.Assumptions == nil {
+		meta.Assumptions = []string{}
+	}
+	if meta.Trusted == nil {
+		meta.Trusted = []string{}
+	}
 	findings := loadFindings(c.Verif)
 	known := map[string]Finding{}
 	for _, f := range findings {
